@@ -82,7 +82,7 @@ class IntS(Spec):
             if is_bool(v):
                 v = zint(v)
             else:
-                raise EngineError('%s: expected int, got %r' % (label, v))
+                raise Unsupported('%s: expected int, got %r' % (label, v))
         if self.pred:
             ex.prove(st, label, self.pred(v), line)
 
@@ -96,7 +96,7 @@ class BoolS(Spec):
 
     def check(self, ex, st, v, label, line=0):
         if not is_bool(v):
-            raise EngineError('%s: expected bool, got %r' % (label, v))
+            raise Unsupported('%s: expected bool, got %r' % (label, v))
 
 
 class StrS(Spec):
@@ -114,13 +114,13 @@ class StrS(Spec):
     def check(self, ex, st, v, label, line=0):
         if self.kind == 'str':
             if not is_str(v):
-                raise EngineError('%s: expected str, got %r' % (label, v))
+                raise Unsupported('%s: expected str, got %r' % (label, v))
             v = lift_str(v)
         else:
             if isinstance(v, TokList) and not v.segs:
                 v = lift_ilist([])
             if not isinstance(v, SSeq):
-                raise EngineError('%s: expected int list, got %r' % (label,
+                raise Unsupported('%s: expected int list, got %r' % (label,
                                                                       v))
         if self.pred:
             ex.prove(st, label, self.pred(v), line)
@@ -176,7 +176,7 @@ class ObjS(Spec):
             ex.prove(st, label + ':not-none', Not(v.isnone), line)
             v = v.obj
         if not isinstance(v, Obj):
-            raise EngineError('%s: expected object %s, got %r' % (
+            raise Unsupported('%s: expected object %s, got %r' % (
                 label, self.cls, v))
         if isinstance(v.cls, str):
             if v.cls != self.cls and not (
@@ -191,7 +191,7 @@ class ObjS(Spec):
                 lz = v.meta.get('lazy')
                 val = lz(ex, st, v, k) if lz else NotImplemented
                 if val is NotImplemented:
-                    raise EngineError('%s: field %s missing on %r' % (
+                    raise Unsupported('%s: field %s missing on %r' % (
                         label, k, v))
                 v.fields[k] = val
             sp.check(ex, st, v.fields[k], label + '.' + k, line)
@@ -208,7 +208,7 @@ class TupleS(Spec):
 
     def check(self, ex, st, v, label, line=0):
         if not isinstance(v, tuple) or len(v) != len(self.specs):
-            raise EngineError('%s: expected %d-tuple, got %r' % (
+            raise Unsupported('%s: expected %d-tuple, got %r' % (
                 label, len(self.specs), v))
         for i, (s, x) in enumerate(zip(self.specs, v)):
             s.check(ex, st, x, '%s[%d]' % (label, i), line)
@@ -256,7 +256,7 @@ class ListS(Spec):
             ex.prove(st, label + ':not-none', Not(v.isnone), line)
             v = v.val
         if not isinstance(v, TokList):
-            raise EngineError('%s: expected list, got %r' % (label, v))
+            raise Unsupported('%s: expected list, got %r' % (label, v))
         if self.lenpred:
             ex.prove(st, label + ':len', self.lenpred(v.length()), line)
         off = 0
@@ -334,7 +334,7 @@ class DictS(Spec):
 
     def check(self, ex, st, v, label, line=0):
         if not isinstance(v, PyDict):
-            raise EngineError('%s: expected dict, got %r' % (label, v))
+            raise Unsupported('%s: expected dict, got %r' % (label, v))
         for k, x in v.items.items():
             self.val.check(ex, st, x, '%s[%r]' % (label, k), line)
 
@@ -388,6 +388,7 @@ class FContract:
         A['$ex'], A['$st'] = ex, st
         for n, sp in self._params(G).items():
             A[n] = sp.make(ex, st)
+        self.param_names = list(self._params(G))
         if self.free:
             for n, sp in (self.free(G) if callable(self.free)
                           else self.free).items():
@@ -418,7 +419,8 @@ class FContract:
             sp = self.result(A)
             sp.check(ex, st, result, 'post:result@' + tr)
         for lab, fn in self.ensures + self.proof_ensures:
-            ex.prove(st, 'post:%s@%s' % (lab, tr), fn(A, result))
+            ex.prove(st, 'post:%s@%s' % (lab, tr), sym.fit(
+                'postcondition ' + lab, lambda: fn(A, result)))
         for lab, get, sp in self.post_objs:
             sp = sp(A) if callable(sp) and not isinstance(sp, Spec) else sp
             sp.check(ex, st, get(A), 'post:%s@%s' % (lab, tr))
@@ -430,9 +432,17 @@ class FContract:
         A = dict(G)
         A.update(vals)
         A['$ex'], A['$st'] = ex, st
-        for n, sp in self._params(G).items():
+        P = self._params(G)
+        if any(n not in A for n in P) and len(vals) == len(P):
+            # the parameters were renamed in the code: the contract's names
+            # are labels, binding is by position as in the call itself
+            for n, v in zip(P, list(vals.values())):
+                A[n] = v
+        for n, sp in P.items():
             if n not in A:
-                raise EngineError('call of %s lacks %s' % (self.qual, n))
+                raise Unsupported('call of %s: the contract names a '
+                                  'parameter %s the code does not have' % (
+                                      self.qual, n))
             if isinstance(A[n], OptVal) and not isinstance(sp, (OptS, AnyS)):
                 ex.prove(st, 'call:%s@%d:arg:%s:not-none' % (tag, line, n),
                          Not(A[n].isnone), line)
@@ -441,8 +451,8 @@ class FContract:
             if isinstance(A[n], Opt) and getattr(sp, 'unwrap_opt', False):
                 A[n] = A[n].obj
         for lab, fn in self.requires:
-            ex.prove(st, 'call:%s@%d:requires:%s' % (tag, line, lab), fn(A),
-                     line)
+            ex.prove(st, 'call:%s@%d:requires:%s' % (tag, line, lab),
+                     sym.fit('precondition ' + lab, lambda: fn(A)), line)
         if self.no_return:
             st.assume(False)
             yield st, None
